@@ -16,8 +16,9 @@ import os
 import random
 import re
 
-from vp import core, pipe, pipeprops, pipespec, shacldoc
+from vp import core, pipe, pipeprops, pipespec, shacldoc, pipemap
 
+pipemap.install()      # shape-map runs (cfg["smap"]) go through Model.RunMap / Shaper(shape_map_raw=...)
 T = pipe.RDF_TYPE
 DEFAULT_NS = pipe.DEFAULT_SHAPES_NS
 PRIORITY = ["", "weso-s", "shapes", "w-shapes"]          # the property text's list of default shape prefixes
@@ -247,18 +248,21 @@ def gen_cases(tier, rnd):
             runs = [(ts, cfg, "shexc_ttl")]
             stream = "turtle-parsed-prefixes"
         elif i % 16 == 1:
-            ts = chain_case(r, cfg)
-            runs = [(ts, cfg, "shexc_map")]
+            ts, cfg = pipemap.chain_run(r, cfg)           # model-corresponded (Model.RunMap)
+            pipemap.note_case("chains", cfg)
+            runs = [(ts, cfg)]
             stream = "reference-chains"
         elif i % 16 == 13:
-            cfg["_shape_map"] = shape_map_for(ts, cfg, r)
+            pipemap.smap_from_text(cfg, shape_map_for(ts, cfg, r))
             cfg["all_classes"] = False
             cfg["targets"] = []
-            runs = [(ts, cfg, "shexc_map")]
+            cfg["cap"] = -1
+            pipemap.note_case("labels", cfg)
+            runs = [(ts, cfg)]                            # model-corresponded (Model.RunMap)
             stream = "shape-map-labels"
         else:
             runs = [(ts, cfg)]
-        if i % 2 == 0 and "_shape_map" not in cfg and "_doc" not in cfg:
+        if i % 2 == 0 and not pipemap.is_map(cfg) and "_doc" not in cfg:
             sc = dict(cfg)
             sc["disable_or_statements"] = True      # SHACL is specified for the default only
             sc["allow_redundant_or"] = False
@@ -270,6 +274,9 @@ def gen_cases(tier, rnd):
         gc = pipe.base_cfg()
         gc["_spec"] = spec
         cases[(k * 2) % len(cases)]["runs"].append(([], gc, "shacl_shapes"))
+    for c in pipemap.stream(tier, rnd, 300, 4000):       # selectors of every kind, all_classes_mode + shape map, OR on/off
+        c["meta"]["stream"] = "shape-map-general"
+        cases.append(c)
     return cases
 
 
@@ -339,8 +346,9 @@ class Spec(pipeprops.PropSpec):
             "round-robin x thresholds on every k/n boundary x targets/all-classes x caps x remove_empty on/off x OR "
             "on/off x user dictionaries colliding with 0-3 of the default shape prefixes ('', weso-s, shapes, w-shapes) "
             "or naming the shapes namespace; streams: all four prefixes taken (random fallback, oracle only), shape-map "
-            "labels as full IRIs / prefixed names with nodes without triples, and reference chains/cascades between "
-            "labels ending in sinks (length 2-4, branching, cycles, class-typed nodes; oracle only), Turtle input whose parsed "
+            "labels as full IRIs / prefixed names with nodes without triples, reference chains/cascades between "
+            "labels ending in sinks (length 2-4, branching, cycles, class-typed nodes) and general shape maps (vp.pipemap) "
+            "-- all three model-corresponded byte for byte through Model.RunMap --, Turtle input whose parsed "
             "prefixes are adopted (oracle only; finding when it declares a default shape prefix), custom "
             "shapes_namespace (finding), two classes sharing a local name (finding), local names with dots/dashes/"
             "leading digits; every second case also SHACL (oracle S1-S3 + isomorphism with the model's abstract graph); "
@@ -380,7 +388,7 @@ class Spec(pipeprops.PropSpec):
             if kind in ("shexc", "shexc_only", "shexc_map", "shexc_ttl"):
                 n += 1
                 bad = recognise(res[1])
-                if bad is not None and kind == "shexc" and in_proved_domain(ts, cfg):
+                if bad is not None and kind == "shexc" and not pipemap.is_map(cfg) and in_proved_domain(ts, cfg):
                     # the theorem says this cannot happen for the model's text, and the correspondence says the
                     # real text is the model's: never attributed to a known finding
                     fails.append((None, "inside C05_dom with refs_closed and distinct labels, yet check %s fails "
@@ -461,7 +469,7 @@ def domain_statistics(cases, limit):
     n = 0
     for c in cases:
         for rn in c["runs"]:
-            if len(rn) > 2:
+            if len(rn) > 2 or pipemap.is_map(rn[1]):
                 continue
             if n >= limit:
                 break
